@@ -55,6 +55,11 @@ var targets = []target{
 	{"pkg/encryption/utils.go", "Validate", ""},
 	{"pkg/encryption/utils.go", "SignedValue", ""},
 	{"pkg/encryption/utils.go", "GenerateCodeChallenge", ""},
+	{"pkg/requests/util/util.go", "IsProxied", ""},
+	{"pkg/requests/util/util.go", "GetRequestProto", ""},
+	{"pkg/requests/util/util.go", "GetRequestHost", ""},
+	{"pkg/requests/util/util.go", "GetRequestURI", ""},
+	{"pkg/requests/util/util.go", "IsForwardedRequest", ""},
 	{"pkg/cookies/cookies.go", "GetCookieDomain", ""},
 }
 
@@ -73,6 +78,7 @@ const (
 	kReq    = "req"
 	kUnit   = "unit"
 	kHmac   = "hmac"
+	kScope  = "scopeptr"
 	kAny    = "?"
 )
 
@@ -104,6 +110,8 @@ func leanOfKind(k string) string {
 		return "Unit"
 	case kHmac:
 		return "Go.Hmac"
+	case kScope:
+		return "Option Go.Scope"
 	}
 	panic("no Lean type for kind " + k)
 }
@@ -336,6 +344,18 @@ func (t *tr) expr(e ast.Expr) (string, string) {
 				switch k + "." + x.Sel.Name {
 				case "cookie.Name", "cookie.Value":
 					return ident(id.Name) + "." + x.Sel.Name, kStr
+				case "req.Host":
+					return ident(id.Name) + ".host", kStr
+				case "scopeptr.ReverseProxy":
+					// a field read through a pointer: nil is a panic
+					return "(← Go.derefScope " + ident(id.Name) + ").ReverseProxy", kBool
+				}
+			}
+		}
+		if inner, ok := x.X.(*ast.SelectorExpr); ok {
+			if id, ok := inner.X.(*ast.Ident); ok && t.kinds[id.Name] == kReq {
+				if inner.Sel.Name == "URL" && x.Sel.Name == "Scheme" {
+					return ident(id.Name) + ".urlScheme", kStr
 				}
 			}
 		}
@@ -536,10 +556,31 @@ func (t *tr) call(x *ast.CallExpr) (string, string) {
 			fail("time.Unix with a nanosecond part")
 		}
 		return "(Go.timeUnix " + a()[0] + ")", kTime
-	case "requestutil.GetRequestHost":
-		return "E.reqHost", kStr
+	case "middlewareapi.GetRequestScope":
+		return a()[0] + ".scope", kScope
 	case "net.SplitHostPort":
 		return "(Go.netSplitHostPort E " + a()[0] + ")", "tuple:str,str,err"
+	}
+	// reads of the request
+	if sel, ok := x.Fun.(*ast.SelectorExpr); ok {
+		if inner, ok := sel.X.(*ast.SelectorExpr); ok {
+			if id, ok := inner.X.(*ast.Ident); ok && t.kinds[id.Name] == kReq {
+				switch inner.Sel.Name + "." + sel.Sel.Name {
+				case "Header.Get":
+					return "(" + ident(id.Name) + ".header " + a()[0] + ")", kStr
+				case "URL.RequestURI":
+					return ident(id.Name) + ".requestURI", kStr
+				}
+			}
+		}
+		// a translated function of another package: pkg.F(...)
+		if pkg, ok := sel.X.(*ast.Ident); ok {
+			if _, isVar := t.kinds[pkg.Name]; !isVar {
+				if _, ok := t.sigs[sel.Sel.Name]; ok && pkg.Name == "requestutil" {
+					return t.call(&ast.CallExpr{Fun: ast.NewIdent(sel.Sel.Name), Args: x.Args, Ellipsis: x.Ellipsis})
+				}
+			}
+		}
 	}
 	// method calls
 	if sel, ok := x.Fun.(*ast.SelectorExpr); ok {
@@ -596,9 +637,6 @@ func (t *tr) call(x *ast.CallExpr) (string, string) {
 			for i := 0; i < n; i++ {
 				if s.params[i] == kUnit {
 					as = append(as, "()")
-					continue
-				}
-				if s.params[i] == kReq {
 					continue
 				}
 				c, _ := t.expr(x.Args[i])
@@ -1198,9 +1236,6 @@ func main() {
 		}
 		var ps []string
 		for i, k := range s.params {
-			if k == kReq {
-				continue // a request is only read through the externals in Go.Ext
-			}
 			n := pnames[i]
 			if n == "" || n == "_" {
 				n = fmt.Sprintf("p%d", i)
